@@ -213,10 +213,13 @@ PROPS = {
     "C03": dict(
         module="Hb.Props.C03",
         ties=[("scen", "mixed", 300, 10000), ("scen", "iter", 150, 4000), ("scen", "entry", 150, 4000),
-              ("scen", "table", 120, 4000), ("scen", "set", 100, 3000), ("scen", "reserve", 100, 3000)],
+              ("scen", "table", 120, 4000), ("scen", "set", 100, 3000), ("scen", "reserve", 100, 3000),
+              ("scen", "par", 80, 2000, ["sse2"])],
         backends=["sse2", "portable"],
         design="§7 C03",
-        text="Lean ledger theorems for every environment in which the calls return: for every history from new() (insert, remove, "
+        text="Lean ledger theorems for every environment in which the calls return (released_exactly_once_all_calls covers the whole "
+             "modelled API: every entry-API family with any chain, try_insert, extend, get_many_mut, Index interleaved with the basic "
+             "calls; at_most_once_with_panics covers histories in which calls unwind): for every history from new() (insert, remove, "
              "remove_entry, overwrite, clear, retain, extract_if and drain at every cut point, reserve/shrink) the key-object and "
              "value-object identities satisfy stored ++ dropped-by-the-collection ++ returned-to-the-caller = inserted as "
              "multisets (so with distinct ids: each exactly once, a returned value is never also dropped); after dropping the "
@@ -232,7 +235,7 @@ PROPS = {
     "C05": dict(
         module="Hb.Props.C05",
         ties=[("scen", "broken-hash", 200, 6000), ("scen", "broken-eq", 200, 6000), ("scen", "broken-both", 150, 5000),
-              ("scen", "broken-sat", 60, 2000), ("scen", "broken-entry", 100, 3000), ("scen", "broken-table", 100, 3000)],
+              ("scen", "broken-sat", 60, 2000), ("scen", "broken-entry", 100, 3000), ("scen", "broken-table", 100, 3000), ("scen", "broken-set", 120, 3000)],
         backends=["sse2", "portable"],
         design="§7 C05",
         text="Lean theorems quantified over ARBITRARY environments (hash and eq answers are functions of the call number: "
@@ -325,10 +328,15 @@ PROPS = {
     ),
     "C07": dict(
         module="Hb.Props.C07",
+        more_modules=["Hb.Props.C07History"],
         ties=[("scen", "set-pairs", 250, 8000), ("scen", "set", 200, 6000), ("scen", "panic-set-pairs", 3, 60)],
         backends=["sse2", "portable"],
         design="§7 C07",
-        text="Lean theorems over ANY two set tables satisfying the hash-dependent invariant (any histories, layouts, "
+        text="Lean theorems: (i) set_history_refines — every history of 27 HashSet calls on a pair of sets from (new(), new()) "
+             "(insert/remove/take/replace/get_or_insert(_with)/entry/retain/clear/reserve/shrink, the four lazy binary "
+             "iterators, the four predicates incl. ==, and |= &= ^= -=) agrees call by call with a reference on key-distinct "
+             "lists that is proved to be the mathematical one, and every reachable pair satisfies the invariant the per-call "
+             "theorems assume (any_two_histories); (ii) per call, over ANY two set tables satisfying the hash-dependent invariant (any histories, layouts, "
              "capacities, tombstones), every deterministic hasher, both scanners: union/intersection/difference/"
              "symmetric_difference yield explicit duplicate-free lists equal to the mathematical result (both |A|<=|B| and "
              "|A|>|B| strategies), all four size hints are sound, is_subset/is_superset/is_disjoint/== give the mathematical "
@@ -343,7 +351,8 @@ PROPS = {
     ),
     "C08": dict(
         module="Hb.Props.C08",
-        ties=[("scen", "reserve", 300, 10000), ("scen", "mixed", 200, 6000), ("scen", "saturate", 60, 2000), ("t1", {})],
+        ties=[("scen", "reserve", 300, 10000), ("scen", "mixed", 200, 6000), ("scen", "saturate", 60, 2000),
+              ("scen", "table", 150, 5000), ("scen", "set", 120, 4000), ("t1", {})],
         backends=["sse2", "portable"],
         design="§7 C08",
         text="Lean theorems over every table state satisfying the API invariant (any tombstone pattern), every hasher and "
@@ -355,7 +364,8 @@ PROPS = {
              "oracle on the real collection around every call, both back-ends; capacity arithmetic regenerated (T1).",
         note="Trusted: Lean kernel, axioms propext/Classical.choice/Quot.sound; harness, hooks, protocol. clear/drain keeping "
              "the allocation: theorem in Hb.Proofs.ApiBulk when present, otherwise by tie + direct oracle only. HashSet/"
-             "HashTable share RawTable::reserve/shrink_to; their wrappers are tied by the set/table profiles.",
+             "HashTable share RawTable::reserve/shrink_to; their wrappers (set.rs, table.rs) are tied by the set/table profiles "
+             "and judged by the same direct capacity oracle.",
     ),
     "C10": dict(
         module="Hb.Props.C10",
@@ -410,10 +420,12 @@ PROPS = {
     ),
     "C13": dict(
         module="Hb.Props.C13",
-        ties=[("scen", "churn-long", 12, 600), ("scen", "churn-window", 16, 600), ("scen", "churn", 250, 8000), ("scen", "saturate", 100, 3000), ("t1", {})],
+        ties=[("scen", "churn-long", 12, 600), ("scen", "churn-window", 16, 600), ("scen", "entry", 120, 4000), ("scen", "churn", 250, 8000), ("scen", "saturate", 100, 3000), ("t1", {})],
         backends=["sse2", "portable"],
         design="§7 C13",
-        text="Lean theorems for every environment and every insert/get/get_mut/remove/remove_entry history of unbounded length "
+        text="Lean theorems for every environment and every history of unbounded length of insert/get/get_mut/remove/remove_entry "
+             "AND of the entry-style insert/remove paths (entry / entry_ref / rustc_entry / raw_entry_mut with any chain, try_insert; "
+             "extend is excluded — it reserves from the size hint, machine-checked witness) "
              "from new(): capacity <= max(14, 4*peak len), bucket count <= 4x with_capacity(n), bytes <= 4x that layout; "
              "tombstones are reclaimed in place (same bucket count, no allocator event) when at most half the capacity is live; "
              "every look-up terminates without fault in any state satisfying the invariant. Tie: long churn histories (4000 "
@@ -428,7 +440,11 @@ PROPS = {
         ties=[("scen", "par", 200, 3000)],
         backends=["sse2", "portable"],
         design="§7 C19",
-        text="Lean theorems about the split logic of the rayon producers, for EVERY binary decision tree over the bucket "
+        text="Lean theorems about the rayon producers AND consumers: helpers::collect preserves order for every split tree; "
+             "par_extend / from_par_iter = sequential extend / from_iter (same map, same drops, last value wins across leaves; "
+             "witness that a reversed reduce breaks it); par_is_subset / par_is_disjoint / par_eq / par_difference / "
+             "par_intersection / par_union / par_symmetric_difference = their sequential counterparts for every producer tree and "
+             "every legal early-exit pattern. About the split logic, for EVERY binary decision tree over the bucket "
              "range (every choice of split-or-consume at every node), every table satisfying the structural invariant (any "
              "size, any occupancy, tombstones, both scanners) and, for par_drain, every per-leaf early-stop count: the leaves "
              "of RawIterRange::split partition the full buckets (each stored element in exactly one leaf, once, leaves in "
@@ -578,6 +594,11 @@ def run_check(pid, tier, seed):
             early_violation = v
     # 1. theorems
     thm = core.check_theorems(cfg["module"])
+    for extra in cfg.get("more_modules", []):
+        t2 = core.check_theorems(extra)
+        thm = dict(obligations=thm["obligations"] + t2["obligations"], discharged=thm["discharged"] + t2["discharged"],
+                   axioms=sorted(set(thm["axioms"]) | set(t2["axioms"])), theorems=thm["theorems"] + t2["theorems"],
+                   problems=thm["problems"] + t2["problems"], build_failed=thm.get("build_failed") or t2.get("build_failed"))
     # 2. builds
     build_problem = None
     try:
@@ -624,7 +645,7 @@ def run_check(pid, tier, seed):
         traces_validated_against_impl=len(stats["batches"]),
     )
     if tier == "thorough" and not thm.get("build_failed"):
-        rc, out = core.sh(["lake", "env", "leanchecker", cfg["module"]], cwd=core.LEAN, timeout=3600)
+        rc, out = core.sh(["lake", "env", "leanchecker", cfg["module"]] + cfg.get("more_modules", []), cwd=core.LEAN, timeout=3600)
         coverage["leanchecker"] = "ok" if rc == 0 else "FAILED: " + out[-500:]
         if rc != 0 and rc_final == 0:
             rc_final = core.report_violation(pid, "leanchecker rejects " + cfg["module"], out[-2000:], False, tag="leanchecker")
